@@ -77,6 +77,9 @@ def cases(tier, inst):
                     if dup and n == 1:
                         continue
                     yield {"labels": [LABELS[i] for i in labs], "dup": dup, "tree": tname}
+                # the root's name also given as an OPTION (TOP_ZONE_NAME) that differs from the project name / from the root of the user tree
+                if n <= 2 and tname in ("none", "flat", "nested"):
+                    yield {"labels": [LABELS[i] for i in labs], "dup": False, "tree": tname, "topname": "Plant"}
                 # names that clash with a GENERATED key: S, S, S_1 (all hot, every order of supply temperatures)
                 if tname == "none" and n == 3 and len(set(labs)) <= 2:
                     for perm in itertools.permutations(range(3)):
@@ -95,7 +98,7 @@ def make_problem(case):
         streams.append({"zone": lab, "name": "S" if case["dup"] else f"S{i + 1}",
                         "t_supply": 150.0 if hot else 40.0, "t_target": 60.0 if hot else 120.0,
                         "heat_flow": 100.0 + i, "dt_cont": 5.0, "htc": 1.0})
-    prob = {"streams": streams, "utilities": [], "options": None}
+    prob = {"streams": streams, "utilities": [], "options": ({"TOP_ZONE_NAME": case["topname"]} if case.get("topname") else None)}
     if TREES[case["tree"]] is not None:
         prob["zone_tree"] = copy.deepcopy(TREES[case["tree"]])
     return prob
@@ -133,7 +136,7 @@ def run(case, res: Result):
                 else:
                     res.violate("foreign_stream_in_zone", case, {"zone": "/".join(path), "duty": s.heat_flow}, "foreign_stream_in_zone")
     leaves = {path for path, z in zones if not z.subzones}
-    tag = f"tree={case['tree']}" + (":dupnames" if case["dup"] is True else (":suffix-names" if case["dup"] else ""))
+    tag = f"tree={case['tree']}" + (":dupnames" if case["dup"] is True else (":suffix-names" if case["dup"] else "")) + (":topname-option" if case.get("topname") else "")
     labs = case["labels"]
     interesting = len(set(labs)) >= 2 and any(a != b and (a.endswith("/" + b) or a.startswith(b + "/") or b.endswith("/" + a) or b.startswith(a + "/"))
                                              for a in labs for b in labs)
@@ -143,7 +146,7 @@ def run(case, res: Result):
         in_leaves = [p for p in paths if p in leaves]
         detail = {"stream": i, "label": labs[i], "found_in": ["/".join(p) for p in paths], "all_zones": ["/".join(p) for p, _ in zones]}
         if not paths:
-            res.violate("stream_dropped", case, detail, f"stream_dropped:{cls(case, i)}")
+            res.violate("stream_dropped", case, detail, f"stream_dropped:{cls(case, i)}" + (":topname-option" if case.get("topname") and cls(case, i).startswith("general") else ""))
             continue
         if len(in_leaves) != 1:
             res.violate("not_in_exactly_one_leaf", case, detail, f"not_in_exactly_one_leaf:{tag}:{cls(case, i)}")
@@ -238,7 +241,7 @@ SUBCHECKS = {
         describe="the zone tree returned by pinch_analysis_service (after targeting, incl. the net-stream imports of total-site analysis) still conserves the streams",
         rule="as 'prepare', through the full service",
         cases=service_cases, run=run,
-        bound=lambda t: "<=2 labels from 16, 7 tree forms" if t == "quick" else "<=3 labels from 16, 7 tree forms",
+        bound=lambda t: "<=2 labels from 16, 7 tree forms, with and without a TOP_ZONE_NAME option" if t == "quick" else "<=3 labels from 16, 7 tree forms, with and without a TOP_ZONE_NAME option",
     ),
     "prepare": SubCheck(
         name="prepare",
